@@ -280,6 +280,13 @@ def o6(ctx, cls, init):
             ctx.decide(rule, okv, hm, n.ast, construct=f"mask:store-False:{src(t)[:40]}", detail=src(n.ast), bad_detail=f"`{src(n.ast)}` does not clear mask entries")
         flag = f"{sm}.isBc[{nodes_}, :].ravel()"
         want = {(e_, flag, ":"), (e_, ":", flag)}
+        # every element is processed: no store is guarded by a condition and the loop has no continue/break
+        guarded = [n for n in stores if any(c.kind == "cond" and c.loops for (c, l) in cfgm.edge_facts(n))]
+        jumps = [n for n in cfgm.nodes if n.kind == "stmt" and isinstance(n.ast, (ast.Continue, ast.Break)) and n.loops]
+        ctx.decide(rule, not guarded and not jumps, hm, (guarded or jumps or stores)[0].ast, construct="mask:every-element-processed",
+                   detail="mask stores are unconditional inside the element loop",
+                   bad_detail="the Hessian mask is not updated for every element (a store is conditional or the loop skips elements): "
+                              "mask and coordinates would disagree for the skipped elements")
         verdict = True if forms == want else (False if forms < want or all(len(f) == 3 for f in forms) else None)
         ctx.decide(rule, verdict, hm, stores[0].ast, construct="mask:rows-and-columns-of-constrained-dofs",
                    detail="mask[e, isBc(e), :] = mask[e, :, isBc(e)] = False",
@@ -321,6 +328,10 @@ def o6(ctx, cls, init):
     if len(loops) != 2:
         ctx.undecided(rule, hc, None, construct="coords:loops", detail=f"{len(loops)} loops (count pass + fill pass expected)")
         return
+    jumps = [n for n in cfgc.nodes if n.kind == "stmt" and isinstance(n.ast, (ast.Continue, ast.Break)) and n.loops]
+    conds = [n for n in cfgc.nodes if n.kind == "cond" and n.loops]
+    ctx.decide(rule, not jumps and not conds, hc, (jumps or conds)[0].ast if (jumps or conds) else None, construct="coords:every-element-processed",
+               detail="coordinate loops are unconditional", bad_detail="the Hessian coordinate loops skip or special-case elements: coordinates and mask would disagree")
     # role-based search in loop bodies
     def find_assign(pred):
         return [n for n in cfgc.nodes if n.kind == "stmt" and isinstance(n.ast, (ast.Assign, ast.AugAssign)) and n.loops and pred(n)]
@@ -415,6 +426,7 @@ def variants(repo):
         Variant("mask rows only", F, sub("            hessian_bc_mask[e,:,eFlag] = False\n", ""), "O6/T6-hessian-coordinates-and-mask"),
         Variant("coords without map", F, sub("            elUnknowns = self.dofToUnknown[elDofs[elUnknownFlags]]", "            elUnknowns = elDofs[elUnknownFlags]"), "O6/T6-hessian-coordinates-and-mask"),
         Variant("cols not transposed", F, sub("            colCoords[rangeBegin:rangeEnd] = elHessCoords.T.ravel()", "            colCoords[rangeBegin:rangeEnd] = elHessCoords.ravel()"), "O6/T6-hessian-coordinates-and-mask"),
+        Variant("mask skips fully constrained elements", F, sub("            eFlag = self.isBc[eNodes,:].ravel()\n", "            eFlag = self.isBc[eNodes,:].ravel()\n            if onp.all(eFlag): continue\n"), "O6/T6-hessian-coordinates-and-mask"),
         Variant("assembler shape", S, sub("shape = (nUnknowns, nUnknowns))", "shape = (nUnknowns+1, nUnknowns+1))"), "O6/T6-hessian-coordinates-and-mask"),
         Variant("assembler unmasked", S, sub("kValues[dofManager.hessian_bc_mask]", "kValues.ravel()"), "O6/T6-hessian-coordinates-and-mask"),
         Variant("reformat FunctionSpace", F, reformat(), None),
